@@ -68,13 +68,17 @@ def _strategy(draw):
         a["_m"] = m
         if a["type"] == "storage":
             a["cost_store"] = 0.0
-        s = draw(st.sampled_from([None, None, 0, 1, 2]))
+        s = draw(st.sampled_from([None, None, 0, 1, 2, -1, -2, -3]))
         if s is None:
             a["start"] = a["end"] = None
         else:
             s = min(s, max(0, T - m))
-            n = draw(st.integers(1, max(1, (T - s) // m)))
+            # whole coarse steps counted from the asset start; start and end may lie outside the horizon,
+            # so that the horizon cuts through a coarse step
+            n = draw(st.integers(1, max(1, (T - s) // m + 1)))
             a["start"], a["end"] = s, s + n * m
+            if draw(st.integers(0, 3)) == 0:
+                a["end"] = None
         # takes on whole coarse steps
         s0 = a["start"] or 0
         for key in ("min_take", "max_take"):
@@ -122,10 +126,11 @@ def strategy(tier):
 
 
 def coarse_steps(a, T):
-    """(first step, number of complete coarse steps inside window and horizon)"""
+    """(asset start, number of complete coarse intervals inside the asset window); an interval may be cut
+    by the horizon - then only its steps inside the horizon carry dispatch"""
     s0 = a.get("start") if a.get("start") is not None else 0
     end = a["end"] if a.get("end") is not None else T
-    return s0, max(0, (min(end, T) - s0) // a["_m"])
+    return s0, max(0, (end - s0) // a["_m"])
 
 
 def groups(spec, a, steps):
@@ -134,7 +139,8 @@ def groups(spec, a, steps):
     if spec["mode"] == "coarse":
         m = a["_m"]
         s0, ncomp = coarse_steps(a, T)
-        return [list(range(s0 + j * m, s0 + (j + 1) * m)) for j in range(ncomp)]
+        grp = [[t for t in range(s0 + j * m, s0 + (j + 1) * m) if 0 <= t < T] for j in range(ncomp)]
+        return [x for x in grp if x]
     p = a["_p"]
     q = a.get("_q")
     byk = {}
@@ -167,6 +173,8 @@ def check(spec):
     if spec["mode"] == "coarse":
         s0, ncomp = coarse_steps(a, T)
         pa["start"], pa["end"] = s0, s0 + ncomp * a["_m"]     # the trailing remainder has no coarse step
+        for key in ("min_take", "max_take"):                   # takes refer to whole coarse steps
+            pass
     rp = obs.Run(plain)
     if is_err(rp.op):
         return out.drop("plain_setup_error:" + rp.op.kind)
